@@ -156,6 +156,17 @@ CHECKS = {
              "of the other tables is produced by fontTools' compile/reload and is NOT decided.",
         design_ref="DESIGN.md §5 C11", note=STATIC_NOTE,
         technique="static analysis: dominance rules, element-wise mapping shape rules, value-origin sanitiser rule, guard facts, regex-AST evaluation of the character class"),
+    "C15": dict(
+        text="Static structural clauses: flipped components reversed by default and at every call site (shared with C01), every component "
+             "drawn through the decomposing pen then removed; 'transformed' = 2x2 differs from fontTools' identity, both siblings "
+             "decompose iff some component is transformed; nested transformations composed as outer o inner (shared with C02); anchor "
+             "propagation only appends entries of to_add, an entry is created only when no existing anchor starts with the name, mark "
+             "adjustment only rewrites existing entries, each position is the base anchor mapped through its own component's "
+             "transformation; transformations filter transforms included bases before replaying the composite, compensates components "
+             "of transformed bases with the inverse on the inner side, maps every anchor as a point and the advance as a vector, and "
+             "builds its matrix in the documented order. Affine arithmetic and rendering equality are not decided.",
+        design_ref="DESIGN.md §5 C15", note=STATIC_NOTE,
+        technique="static analysis: formula-shape matching after local inlining, guard facts from control dependence, dominance/order rules, mutation scan of the composite"),
 }
 
 _TODO = "check not built yet in this session (static rules designed in DESIGN.md §5; will be claimed when the rule set is armed)"
